@@ -13,7 +13,7 @@
      header.go normalizeHeaderKey (valid keys)-> normKey
      header.go RequestHeader.Del / del + args.go delAllArgsStable -> hdel
      args.go setArg                           -> setArg
-     stripSensitiveHeadersOnRedirect          -> stripSensitiveHeadersOnRedirect (the six Del calls, in source order)
+     stripSensitiveHeadersOnRedirect          -> stripSensitiveHeadersOnRedirect (the six Del calls, in source order, then the case-insensitive sweep of h.h)
      http.go Request.Write / writeBodyStream + header.go SetContentLength / AppendBytes -> write
                                                  (only what decides: method, generic headers, Content-Length / Content-Type /
                                                   Transfer-Encoding presence, number of body bytes; userinfo -> Authorization)
